@@ -59,10 +59,11 @@ def scenario_cases(pairs):
         expect = o0.get("status")
         for k in range(ncb + 1):
             rs = lambda t: resign(op, t) if kind == "oauth1" or op["op"] == "oidc_authorize" else dict(op)
-            ops = list(setup) + [dict(rs("f"), fault=k), rs("r1"), rs("r2")]
-            c = record(kind, None, ops)
-            c["scenario"], c["expect_retry"], c["k"] = name, expect, [k]
-            out.append(c)
+            for ft in (None, ["ValueError", "TypeError", "KeyError", "OSError", "AttributeError", "LookupError"][(k + len(name)) % 6], "ValueError" if k % 2 else "TypeError"):
+                ops = list(setup) + [dict(rs("f"), fault=k, **({"fault_type": ft} if ft else {})), rs("r1"), rs("r2")]
+                c = record(kind, None, ops)
+                c["scenario"], c["expect_retry"], c["k"] = name, expect, [k]
+                out.append(c)
             if pairs:
                 for k2 in range(ncb):
                     ops = list(setup) + [dict(rs("f"), fault=k), dict(rs("g"), fault=k2), rs("r1"), rs("r2")]
